@@ -16,7 +16,7 @@ m = {
         "guard": "kani",
         "enable": "none in /repo: checks compile shadow copies of /repo's working tree (generated under $VERIF_SCRATCH, default /var/tmp) into which a `#[cfg(any(kani, verif_native))] pub mod verif_kani;` line and harness modules from /verif/harness are injected; cfg(kani) is set by Kani itself, cfg(verif_native) by the native replay driver",
         "baseline_off_cmd": BASELINE_CMD,
-        "source_commits": plan.FIX_COMMITS,
+        "source_commits": [],
         "add_only": True,
     },
     "engines": [
@@ -25,7 +25,7 @@ m = {
     ],
     "checks": [],
     "not_applicable": [],
-    "notes": "exit 2 = inconclusive (timeout, memory, engine error, non-reproducing counterexample); never reported as a pass. Source commits listed under hooks are 'fix:' repairs of genuine defects, not hooks: no instrumentation is added to /repo.",
+    "notes": "exit 2 = inconclusive (timeout, memory, engine error, non-reproducing counterexample); never reported as a pass. No hook or instrumentation commit exists in /repo (hooks.source_commits is empty); the only commits made to /repo are the 'fix:' repairs of genuine defects " + ", ".join(plan.FIX_COMMITS) + " (see /verif/known_findings.json and DESIGN.md 10.3).",
 }
 CLAIMED = set(plan.CLAIMED)
 for pid in ALL:
